@@ -85,7 +85,7 @@ func c14xS0() *c14xWorld {
 		Devs: map[string]*c14xDevSpec{
 			"a1": {ID: "a1", Ded: []string{c14xD1}, Linked: c14xL1, Human: "h1"},
 			"a2": {ID: "a2", Ded: []string{c14xD2}},
-			"b1": {ID: "b1", Ded: []string{c14xD3}, Linked: c14xL2},
+			"b1": {ID: "b1", Ded: []string{c14xD3}, Linked: c14xL2, Human: "hb"},
 			"c1": {ID: "c1", Ded: []string{c14xDC}, Linked: c14xLC, Human: "hc"},
 		},
 	}
@@ -149,6 +149,12 @@ var c14xVariants = []c14xVariant{
 	{name: "human-id-device-changes-profile", changed: []string{"pA", "pB"}, apply: func(w *c14xWorld) {
 		w.prof("pA").Devs = []string{"a2"}
 		w.prof("pB").Devs = []string{"b1", "a1"}
+	}},
+	// pB has AutoDevicesEnabled: the code starts no clean-up for its devices,
+	// the membership re-check alone must keep the removed device out.
+	{name: "device-deleted-from-auto-devices-profile", changed: []string{"pB"}, apply: func(w *c14xWorld) {
+		w.prof("pB").Devs = nil
+		delete(w.Devs, "b1")
 	}},
 	{name: "dropped-dedicated-ip-returns", preChanged: []string{"pA"}, pre: func(w *c14xWorld) {
 		w.Devs["a1"].Ded = nil
@@ -234,7 +240,7 @@ var c14xUniverse = func() (out []c14xLookup) {
 		out = append(out, c14xLookup{Kind: "linked", Key: ip})
 	}
 	for _, p := range []string{"pA", "pB", "pC"} {
-		for _, h := range []string{"h1", "hc"} {
+		for _, h := range []string{"h1", "hc", "hb"} {
 			out = append(out, c14xLookup{Kind: "human", Key: h, Prof: p})
 		}
 	}
@@ -343,6 +349,8 @@ func c14xPrograms(variant string) (out [][]int) {
 		return [][]int{{dev("a1"), dev("c1")}, {ded(c14xD2), hum("pA", "h1")}, {lnk(c14xL1), ded(c14xDC)}}
 	case "human-id-device-changes-profile":
 		return [][]int{{hum("pA", "h1"), hum("pB", "h1")}, {dev("a1"), hum("pC", "hc")}, {ded(c14xD1), lnk(c14xL1)}}
+	case "device-deleted-from-auto-devices-profile":
+		return [][]int{{dev("b1"), dev("c1")}, {ded(c14xD3), lnk(c14xL2)}, {hum("pB", "hb"), dev("a1")}}
 	case "dropped-dedicated-ip-returns":
 		return [][]int{{ded(c14xD1), ded(c14xD1)}, {ded(c14xD1), ded(c14xDC)}, {dev("a2"), ded(c14xD1)}}
 	case "dropped-linked-ip-goes-to-other-profile":
